@@ -205,6 +205,97 @@ def fold_rust_extras(idx: Index):
     return out
 
 
+def fold_python_option(idx: Index):
+    """TypesCodeGenerator._generate_properties folded (E5) on synthetic properties: type shape x optional in (absent,
+    false, true).  -> {(shape, optional, null-admitting): emitted attribute line | 'raises <X>'}"""
+    m = idx.get(P_PYUTILS)
+    cls = m.classes.get("TypesCodeGenerator")
+    if cls is None:
+        raise AnalysisError(f"{P_PYUTILS}: TypesCodeGenerator not found")
+    methods = {x.name: x for x in cls.body if isinstance(x, ast.FunctionDef)}
+    if "_generate_properties" not in methods:
+        raise AnalysisError(f"{P_PYUTILS}: _generate_properties not found")
+
+    def T(kind, **kw):
+        return Record("Type", {"kind": kind, **kw})
+    null = T("base", name="null")
+    shapes = {
+        "string": (T("base", name="string"), False),
+        "string|null": (T("or", items=[T("base", name="string"), null]), True),
+        "string|integer|null": (T("or", items=[T("base", name="string"), T("base", name="integer"), null]), True),
+        "string|integer": (T("or", items=[T("base", name="string"), T("base", name="integer")]), False),
+        "array": (T("array", element=T("base", name="string")), False),
+    }
+    out = {}
+    for sname, (ty, null_adm) in shapes.items():
+        for optional in (None, False, True):
+            it = Interp(m.tree, name=P_PYUTILS)
+            it.globals["_get_since"] = ("host", lambda *a, **k: [])
+            it.globals["_get_indented_documentation"] = ("host", lambda *a, **k: None)
+            spec = Record("LSPModel", {"structures": [], "typeAliases": [], "enumerations": [], "requests": [], "notifications": []})
+            self_rec = Record("TypesCodeGenerator", {"_lsp_model": spec, "_process_literal_types": ("host", lambda *a, **k: None)},
+                              {"TypesCodeGenerator": {k: v for k, v in methods.items() if k != "_process_literal_types"}})
+            it.classes["TypesCodeGenerator"] = self_rec.classes["TypesCodeGenerator"]
+            prop = Record("Property", {"name": "someProp", "type": _deepcopy(ty), "optional": optional, "documentation": None,
+                                       "since": None, "sinceTags": None, "proposed": None, "deprecated": None})
+            try:
+                lines = it.call(methods["_generate_properties"], [self_rec, "SomeClass", [prop], "    "])
+            except Raised as e:
+                out[(sname, optional, null_adm)] = f"raises {e.exc_name}"
+                continue
+            out[(sname, optional, null_adm)] = next((l.strip() for l in it.iterate(lines)
+                                                     if isinstance(l, str) and l.strip().startswith("some_prop:")), "")
+    return out
+
+
+def fold_rust_option(idx: Index):
+    """generate_property of the rust plugin folded (E5) on synthetic properties: type shape x optional in (absent, false,
+    true).  -> {(shape, optional): field type text | 'raises <X>'}"""
+    m = idx.get(P_RC)
+    it = Interp(m.tree, name=P_RC)
+    f = it.globals.get("generate_property")
+    if not isinstance(f, Closure):
+        raise AnalysisError(f"{P_RC}: generate_property not found")
+    # helpers of sibling modules (to_snake_case ...) as written
+    import os
+    for st in m.tree.body:
+        if isinstance(st, ast.ImportFrom) and st.level == 1 and st.module:
+            rel2 = os.path.join(os.path.dirname(P_RC), st.module + ".py")
+            try:
+                m2 = idx.get(rel2)
+            except AnalysisError:
+                continue
+            it2 = Interp(m2.tree, name=rel2)
+            for a in st.names:
+                if a.name in it2.globals:
+                    it.globals.setdefault(a.asname or a.name, it2.globals[a.name])
+
+    def T(kind, **kw):
+        return Record("Type", {"kind": kind, **kw})
+    null = T("base", name="null")
+    shapes = {
+        "string": (T("base", name="string"), False),
+        "string|null": (T("or", items=[T("base", name="string"), null]), True),
+        "string|integer|null": (T("or", items=[T("base", name="string"), T("base", name="integer"), null]), True),
+        "string|integer": (T("or", items=[T("base", name="string"), T("base", name="integer")]), False),
+        "array": (T("array", element=T("base", name="string")), False),
+    }
+    spec = Record("LSPModel", {"structures": [], "typeAliases": [], "enumerations": [], "requests": [], "notifications": []})
+    out = {}
+    for sname, (ty, null_adm) in shapes.items():
+        for optional in (None, False, True):
+            prop = Record("Property", {"name": "someProp", "type": ty, "optional": optional, "documentation": None,
+                                       "since": None, "sinceTags": None, "proposed": None, "deprecated": None})
+            try:
+                lines = f(prop, Record("TypeData", {}), spec)
+            except Raised as e:
+                out[(sname, optional, null_adm)] = f"raises {e.exc_name}"
+                continue
+            field = next((l for l in it.iterate(lines) if isinstance(l, str) and l.startswith("pub ")), "")
+            out[(sname, optional, null_adm)] = field
+    return out
+
+
 def literal_shapes():
     """Property types with anonymous literals at the positions the discipline names (property type, array
     element, union member) and their compositions.  -> [(label, type Record, [literal Records])]"""
